@@ -148,6 +148,7 @@ class Canon:
                 if c and self.inlinable(c) is not None:
                     self.run_fn(self.fns[c], stack + (p,))
             self.drop_debug_asserts(body)
+            self.assert_eq_forms(body)
             self.split_last_match(body)
             self.let_else(body)
             self.flatten_blocks(body)
@@ -169,12 +170,15 @@ class Canon:
             self.flatten_blocks(body)
             self.split_tuple_lets(body)
             self.beta_reduce(body)
+            self.beta_reduce_blocks(body)
             self.assign_forms(body)
             self.match_ints(body)
             self.if_assign(body)
             self.mem_replace(body)
             self.loop_to_while(body)
             self.while_loops(body)
+            self.slice_aliases(body)
+            self.fill_calls(body)
             self.for_each_loops(body)
             self.fold_tuple_loops(body)
             self.fold_loops(body)
@@ -1005,6 +1009,81 @@ class Canon:
             if any(s_.get("canon_dead") for s_ in blk.get("stmts", [])):
                 blk["stmts"] = [s_ for s_ in blk["stmts"] if not s_.get("canon_dead")]
 
+    def beta_reduce_blocks(self, body):
+        """`let step = |x: &mut M, c: usize| { stmts };  ..  step(&mut m, j);`  ->  the statements at the call, parameters replaced by the
+        arguments (locals, literals, `&`/`&mut` of a local), the closure's own locals renamed apart.  Only closures that are not
+        `move`, contain no `return`, and are only ever called as statements."""
+        cands = {}
+        for n in _walk(body):
+            if n.get("k") == "Let" and n.get("pat", {}).get("k") == "Bind" and n.get("init") is not None:
+                c = _strip(n["init"])
+                if c.get("k") == "Closure" and not c.get("move") and all(p_.get("k") == "Bind" for p_ in c.get("params", [])):
+                    cb = c["body"]
+                    if cb.get("k") == "Block" and (cb.get("stmts") or cb.get("expr") is not None) and not any(y.get("k") in ("Ret", "Try") for y in _walk(cb)) and str(cb.get("ty")) in ("()", "None"):
+                        cands[n["pat"]["v"]] = (n, c)
+        if not cands:
+            return
+        uses = {v: 0 for v in cands}
+        calls = {v: 0 for v in cands}
+        for n in _walk(body):
+            if n.get("k") == "Local" and n.get("v") in cands:
+                uses[n["v"]] += 1
+        done = {}
+        for blk in [n for n in _walk(body) if n.get("k") == "Block"]:
+            out, changed = [], False
+            for st in blk.get("stmts", []):
+                e = _strip(st.get("e")) if st.get("k") in ("Semi", "Expr") and isinstance(st.get("e"), dict) else None
+                f = _strip(e["f"]) if e is not None and e.get("k") == "Call" else None
+                if f is None or f.get("k") != "Local" or f.get("v") not in cands:
+                    out.append(st)
+                    continue
+                letn, c = cands[f["v"]]
+                args = e.get("args", [])
+                if len(args) != len(c["params"]) or not all(self._aliasable(a) or self._pure(a) for a in args):
+                    out.append(st)
+                    continue
+                cb = copy.deepcopy(c["body"])
+                base = self.fresh
+                self.fresh += 100000
+                inner_binds = set()
+                for x in _walk(cb):
+                    if isinstance(x.get("id"), int):
+                        x["id"] += base
+                    if x.get("k") == "Bind" and isinstance(x.get("v"), int):
+                        inner_binds.add(x["v"])
+                for x in _walk(cb):      # rename the closure's own locals apart (one copy per call)
+                    if x.get("k") in ("Bind", "Local") and x.get("v") in inner_binds:
+                        x["v"] = x["v"] + base
+                for prm, a in zip(c["params"], args):
+                    for u in [x for x in _walk(cb) if x.get("k") == "Local" and x.get("v") == prm["v"]]:
+                        cp = copy.deepcopy(a)
+                        keep = {kk: u.get(kk) for kk in ("sp",)}
+                        u.clear()
+                        u.update(cp)
+                        for kk, vv in keep.items():
+                            if vv is not None:
+                                u[kk] = vv
+                sp = st.get("sp") or e.get("sp") or [0, 0, 0, 0]
+                k_ = 0
+                for y in _walk(cb):
+                    if y.get("sp"):
+                        k_ += 1
+                        y["sp"] = [sp[0], sp[1] + 0.00001 * k_, sp[2] if len(sp) > 2 else sp[0], sp[3] if len(sp) > 3 else sp[1]]
+                out.extend(cb.get("stmts", []))
+                if cb.get("expr") is not None:
+                    out.append({"k": "Semi", "e": cb["expr"], "sp": list(cb["expr"].get("sp") or sp)})
+                calls[f["v"]] += 1
+                changed = True
+                self.stats["beta_blocks"] = self.stats.get("beta_blocks", 0) + 1
+            if changed:
+                blk["stmts"] = out
+        for v, (letn, c) in cands.items():
+            if calls[v] and calls[v] == uses[v]:
+                letn["canon_dead"] = True
+        for blk in [n for n in _walk(body) if n.get("k") == "Block"]:
+            if any(s_.get("canon_dead") for s_ in blk.get("stmts", [])):
+                blk["stmts"] = [s_ for s_ in blk["stmts"] if not s_.get("canon_dead")]
+
     # ------------------------------------------------------------------ P8
     def match_ints(self, body):
         """`match s { 1 => A, 2 => B, _ => C }` on an integer s that is a plain local / parameter / field  ->
@@ -1126,6 +1205,45 @@ class Canon:
                 blk["stmts"] = [s_ for s_ in st if not s_.get("canon_dead")]
 
     # ------------------------------------------------------------------ P7
+    def assert_eq_forms(self, body):
+        """`assert_eq!(a, b, ..)` / `assert_ne!(a, b, ..)` (a match on `(&a, &b)` binding left_val / right_val)  ->  `if !(a == b) { panic }` resp.
+        `if a == b { panic }`: the guard in the form every rule already reads."""
+        for m in [y for y in _walk(body) if y.get("k") == "Match" and str(y.get("m") or "").split("::")[-1] in ("assert_eq", "assert_ne") and len(y.get("arms", [])) == 1]:
+            sc = _strip(m["scrut"])
+            arm = m["arms"][0]
+            pat = arm.get("pat", {})
+            if sc.get("k") != "Tup" or len(sc.get("es", [])) != 2 or pat.get("k") != "Tuple" or len(pat.get("ps", [])) != 2 or not all(q.get("k") == "Bind" for q in pat["ps"]):
+                continue
+            ops = []
+            for e_ in sc["es"]:
+                e0 = _strip(e_)
+                ops.append(e0["e"] if e0.get("k") == "AddrOf" else e0)
+            inner = [y for y in _walk(arm["body"]) if y.get("k") == "If"]
+            if not inner:
+                continue
+            iff = inner[0]
+            lv, rv = pat["ps"][0]["v"], pat["ps"][1]["v"]
+
+            def subst(node):
+                for u in [y for y in _walk(node) if y.get("k") == "Unary" and y.get("op") == "*" and _strip(y["e"]).get("k") == "Local" and _strip(y["e"]).get("v") in (lv, rv)]:
+                    src = copy.deepcopy(ops[0] if _strip(u["e"])["v"] == lv else ops[1])
+                    keep = {kk: u.get(kk) for kk in ("sp",)}
+                    u.clear()
+                    u.update(src)
+                    for kk, vv in keep.items():
+                        if vv is not None:
+                            u[kk] = vv
+            subst(iff["cond"])
+            keepm = {kk: m.get(kk) for kk in ("sp", "ty")}
+            new = {"k": "If", "cond": iff["cond"], "then": iff["then"], "id": self._id()}
+            m.clear()
+            m.update(new)
+            for kk, vv in keepm.items():
+                if vv is not None:
+                    m[kk] = vv
+            m["ty"] = "()"
+            self.stats["assert_eq"] = self.stats.get("assert_eq", 0) + 1
+
     def split_last_match(self, body):
         """`match X.split_last() { None => A, Some((&last, rest)) => B }`  ->  `if X.is_empty() { A } else { B[last := X[len-1], rest := &X[0..len-1]] }`
         (X a Vec / slice place that B does not write)."""
@@ -1307,6 +1425,100 @@ class Canon:
                 blk["stmts"] = keep
             t = blk.get("expr")
             if isinstance(t, dict) and str(t.get("m") or "").split("::")[-1].startswith("debug_assert"):
+                blk["expr"] = None
+
+    def slice_aliases(self, body):
+        """`let t = &mut X[a..b];` / `let t = &X[a..b];` (t immutable, X a place, a and b side-effect free)  ->  every use of `t` is the
+        sub-slice expression itself (while `t` lives X cannot be touched otherwise: that is what the borrow means)."""
+        for blk in [n for n in _walk(body) if n.get("k") == "Block"]:
+            keep, changed = [], False
+            for st in blk.get("stmts", []):
+                if st.get("k") == "Let" and st.get("pat", {}).get("k") == "Bind" and not st["pat"].get("mut") and not st["pat"].get("byref") and st.get("init") is not None:
+                    i0 = _strip(st["init"])
+                    sr_ = self._subrange(i0) if i0.get("k") == "AddrOf" else None
+                    if sr_ is not None and self._pure(sr_[0]) and all(x_ is None or self._pure(x_) for x_ in sr_[1:3]):
+                        v = st["pat"]["v"]
+                        uses = [y for y in _walk(blk) if y.get("k") == "Local" and y.get("v") == v]
+                        in_closure = any(c_.get("k") == "Closure" and any(y.get("k") == "Local" and y.get("v") == v for y in _walk(c_)) for c_ in _walk(blk))
+                        if uses and not in_closure:        # (a sub-slice captured by a closure stays a named borrow: what is captured matters to the rules)
+                            for u in uses:
+                                cp = copy.deepcopy(i0)
+                                keepk = {kk: u.get(kk) for kk in ("sp", "adj")}
+                                u.clear()
+                                u.update(cp)
+                                for kk, vv in keepk.items():
+                                    if vv is not None:
+                                        u[kk] = vv
+                            changed = True
+                            self.stats["slice_aliases"] = self.stats.get("slice_aliases", 0) + 1
+                            continue
+                keep.append(st)
+            if changed:
+                blk["stmts"] = keep
+
+    def fill_calls(self, body):
+        """`X.fill(e);` / `X[a..b].fill(e);` on a Vec or slice, as a statement, e side-effect free  ->  `for i in 0..len(X) { X[i] = e }` resp. `for i in a..b { X[i] = e }`."""
+        for blk in [n for n in _walk(body) if n.get("k") == "Block"]:
+            items = list(blk.get("stmts", []))
+            tail_is = False
+            t = blk.get("expr")
+            if isinstance(t, dict) and _strip(t).get("k") == "MethodCall" and _strip(t).get("name") == "fill" and str(t.get("ty")) == "()":
+                items.append({"k": "Semi", "e": t, "sp": t.get("sp")})
+                tail_is = True
+            changed = False
+            for st in items:
+                e = _strip(st.get("e")) if st.get("k") in ("Semi", "Expr") and isinstance(st.get("e"), dict) else None
+                if e is None or e.get("k") != "MethodCall" or e.get("name") != "fill" or len(e.get("args", [])) != 1 or "[T]::fill" not in str(e.get("fn") or e.get("impl") or ""):
+                    continue
+                arg = e["args"][0]
+                if not self._pure(arg):
+                    continue
+                recv = e["recv"]
+                sub = self._subrange(recv)
+                sp = st.get("sp") or e.get("sp") or [0, 0, 0, 0]
+
+                def usz(node):
+                    node.setdefault("ty", "usize")
+                    node.setdefault("id", self._id())
+                    node.setdefault("sp", list(sp))
+                    return node
+                if sub is not None:
+                    base, lo_n, hi_n, incl = sub
+                    if incl:
+                        continue
+                else:
+                    base, lo_n, hi_n = recv, None, None
+                    r0 = _strip(base)
+                    while r0.get("k") == "AddrOf":
+                        r0 = _strip(r0["e"])
+                    base = r0
+                if not self._pure(base):
+                    continue
+                b_ = copy.deepcopy(base)
+                b_.pop("adj", None)
+                hi = copy.deepcopy(hi_n) if hi_n is not None else usz({"k": "MethodCall", "name": "len", "fn": "std::vec::Vec<T, A>::len", "impl": "std::vec::Vec<T, A>::len",
+                                                                        "fn_local": False, "recv": copy.deepcopy(b_), "args": []})
+                self.fresh += 1
+                iv = self.fresh
+                ety = arg.get("ty")
+                ix = usz({"k": "Local", "v": iv, "name": "__i"})
+                if lo_n is not None and not (_strip(lo_n).get("k") == "Lit" and str(_strip(lo_n).get("v")) == "0"):
+                    # zero-based: element a + i for i in 0..b-a (so a flat index a = r*stride keeps its row / column reading)
+                    ix = usz({"k": "Binary", "op": "+", "l": copy.deepcopy(lo_n), "r": ix})
+                    hi = usz({"k": "Binary", "op": "-", "l": hi, "r": copy.deepcopy(lo_n)})
+                lo = usz({"k": "Lit", "v": "0"})
+                tgt = {"k": "Index", "base": copy.deepcopy(b_), "idx": ix, "id": self._id(), "ty": ety, "sp": list(sp)}
+                asg = {"k": "Assign", "l": tgt, "r": arg, "id": self._id(), "ty": "()", "sp": list(sp)}
+                loop = {"k": "For", "pat": {"k": "Bind", "v": iv, "name": "__i", "mut": False, "byref": False, "ty": "usize"},
+                        "iter": {"k": "Range", "lo": lo, "hi": hi, "incl": False, "id": self._id(), "ty": "std::ops::Range<usize>", "sp": list(sp)},
+                        "body": {"k": "Block", "stmts": [{"k": "Semi", "e": asg, "sp": list(sp)}], "id": self._id(), "ty": "()", "sp": list(sp)},
+                        "id": self._id(), "ty": "()", "sp": list(sp), "canon": "fill-loop"}
+                st["k"] = "Expr"
+                st["e"] = loop
+                changed = True
+                self.stats["fill_loops"] = self.stats.get("fill_loops", 0) + 1
+            if changed and tail_is:
+                blk["stmts"] = items
                 blk["expr"] = None
 
     def for_each_loops(self, body):
@@ -1495,8 +1707,10 @@ class Canon:
                             continue
                         if x.get("k") == "MethodCall" and x.get("name") == "fold" and x.get("fn") == "std::iter::Iterator::fold" and len(x.get("args", [])) == 2:
                             cl = _strip(x["args"][1])
+                            init_reads_only = not any(y.get("k") in ("Assign", "AssignOp", "Closure", "Ret", "Try") or (y.get("k") == "AddrOf" and y.get("mut")) or
+                                                      str(y.get("adj") or "").startswith("&mut") for y in _walk(x["args"][0]))
                             if cl.get("k") == "Closure" and len(cl.get("params", [])) == 2 and cl["params"][0].get("k") == "Bind" and \
-                                    not any(y.get("k") in ("Ret", "Try") for y in _walk(cl["body"])) and self._pure(x["args"][0]):
+                                    not any(y.get("k") in ("Ret", "Try") for y in _walk(cl["body"])) and (self._pure(x["args"][0]) or init_reads_only):
                                 folds.append(x)
                                 continue
                         stack.extend(_kids(x))
@@ -1521,12 +1735,14 @@ class Canon:
                         bodye = bodye["expr"]
                     bsp = list(bodye.get("sp") or sp)
                     asg = {"k": "Assign", "l": {"k": "Local", "v": v, "name": vname, "id": self._id(), "ty": vty, "sp": bsp}, "r": bodye, "id": self._id(), "ty": "()", "sp": bsp}
+                    b0_ = _strip(bodye)
+                    identity = b0_.get("k") == "Local" and b0_.get("v") == v        # `|mut acc, x| { acc *= x; acc }`: the tail hands the accumulator back
                     src_it = x["recv"]
                     s0 = _strip(src_it)
                     if s0.get("k") == "MethodCall" and s0.get("name") == "into_iter" and not s0.get("args") and str(s0["recv"].get("ty", "")).lstrip("&mut ").startswith("std::vec::Vec<"):
                         src_it = s0["recv"]          # `for p in v` is `for p in v.into_iter()`
                     loop = {"k": "For", "pat": cl["params"][1], "iter": src_it,
-                            "body": {"k": "Block", "stmts": pre_stmts + [{"k": "Semi", "e": asg, "sp": bsp}], "id": self._id(), "ty": "()", "sp": bsp},
+                            "body": {"k": "Block", "stmts": pre_stmts + ([] if identity else [{"k": "Semi", "e": asg, "sp": bsp}]), "id": self._id(), "ty": "()", "sp": bsp},
                             "id": self._id(), "ty": "()", "sp": [sp[0], sp[1] - 0.25, sp[0], sp[1] - 0.2], "canon": "fold-loop"}
                     let = {"k": "Let", "pat": {"k": "Bind", "v": v, "name": vname, "mut": True, "byref": False, "ty": vty}, "init": x["args"][0],
                            "sp": [sp[0], sp[1] - 0.3, sp[0], sp[1] - 0.26], "canon": "fold-acc"}
